@@ -146,6 +146,11 @@ func (route *SendFirstMatch) Dispatch(buf []byte) {
 
 func (route *ConsistentHashing) Dispatch(buf []byte) {
 	conf := route.config.Load().(consistentHashingConfig)
+	if len(conf.Hasher.Ring) == 0 {
+		// all destinations were removed: there is no ring to look the metric up in
+		log.Errorf("route %s has no destinations, dropping %s", route.key, buf)
+		return
+	}
 	if pos := bytes.IndexByte(buf, ' '); pos > 0 {
 		name := buf[0:pos]
 		dest := conf.Dests()[conf.Hasher.GetDestinationIndex(name)]
